@@ -97,8 +97,9 @@ def count_form(ctx: Ctx, fn):
     """count = (size + size % 2) // 2 (any arithmetic equal to ceil(size/2)); request at <param>.offset; decode with read_value."""
     prog = ctx.prog
     param = fn.params[1]
-    reqs = [n for n in ast.walk(fn.node) if isinstance(n, ast.Call) and (call_chain(n) or ("",))[-1] in ("_read_command",) and len(n.args) == 2]
-    reqs += [n for n in ast.walk(fn.node) if isinstance(n, ast.Call) and isinstance(n.func, ast.Name) and n.func.id == "Aa55ReadCommand" and len(n.args) == 2]
+    from ..astutil import calls_through_helpers
+    reqs = calls_through_helpers(ctx.res, fn, lambda n: len(n.args) == 2 and ((call_chain(n) or ("",))[-1] in ("_read_command",)
+                                                                               or (isinstance(n.func, ast.Name) and n.func.id == "Aa55ReadCommand")))
     if not reqs:
         return False, "no read request is built"
     assigns = {n.targets[0].id: n.value for n in ast.walk(fn.node) if isinstance(n, ast.Assign) and isinstance(n.targets[0], ast.Name)}
